@@ -357,7 +357,7 @@ impl Memory {
         assert(self.sections@ =~= s1.insert(a, self.sections@[a]));
         lemma_truncate(s1, a, self.sections@[a], address - a);
     }
-//@ before 0 `let permissions = self`
+//@ after 0 `.split_off(offset as usize);`
     let ghost s2 = self.sections@;
     proof {
         assert(s2 =~= s1.insert(a, s2[a]));
@@ -392,10 +392,10 @@ impl Memory {
         assert(self.sections@ =~= s3.insert(n, self.sections@[n]));
         lemma_insert(s3, n, self.sections@[n]);
     }
-//@ before 0 `self.sections .insert(address, Section::new(data, permissions));`
+//@ before 2 `self.sections .insert(address`
     let ghost s_end = self.sections@;
     let ghost data0 = data@;
-//@ after 0 `self.sections .insert(address, Section::new(data, permissions));`
+//@ after 0 `Section::new(data, permissions));`
     proof {
         let sec = self.sections@[address];
         assert(self.sections@ =~= s_end.insert(address, sec));
